@@ -537,3 +537,5 @@ META = {
     'technique': 'syntax-directed template rules with index-domain slice complement check + ordering-domain tabulation '
                  'of the grouping kernel + count/write pairing rule',
 }
+
+META['explanation'] += ' ' + 'Further: the output point print_guess reaches its write on every non-debug path; OMEN necessary conditions shared from C10 (exact last transition, cursor advance, inclusive level-cursor domain, prune discipline); loader bundle; exact-float discipline.'
